@@ -21,7 +21,9 @@ TOP = ALL | {"R"}
 
 PRED = {
     "is_boolean": {"B"}, "is_bytes": {"BY"}, "is_datetime": {"DT"}, "is_float": {"F"},
-    "is_integer": {"I", "U", "R"}, "is_number": {"I", "U", "F", "C", "R"}, "is_object": {"O"},
+    # NumPy's scalar hierarchy: timedelta64 is a subclass of signedinteger, so issubdtype(timedelta64, np.integer)
+    # and issubdtype(timedelta64, np.number) are True (datetime64 and bool_ are not numbers)
+    "is_integer": {"I", "U", "R", "TD"}, "is_number": {"I", "U", "F", "C", "R", "TD"}, "is_object": {"O"},
     "is_string": {"SF", "SV"}, "is_timedelta": {"TD"}, "_is_string_fixed": {"SF"},
     "_is_string_variable": {"SV"},
 }
@@ -47,8 +49,15 @@ def _pred_of(test, var):
     return None
 
 
+_RESOLVER = [None]     # set by analyse()/operations(): maps a Name node used as a test to the pure expression it stands for
+
+
 def refine(state, test, truth, var):
     """State of ``var`` on the edge where ``test`` evaluates to ``truth``."""
+    if isinstance(test, ast.Name) and _RESOLVER[0] is not None:
+        e = _RESOLVER[0](test)
+        if e is not None:
+            return refine(state, e, truth, var)
     if isinstance(test, ast.UnaryOp) and isinstance(test.op, ast.Not):
         return refine(state, test.operand, not truth, var)
     if isinstance(test, ast.BoolOp):
@@ -111,9 +120,31 @@ def transfer(state, value, var):
     return None
 
 
+def _make_resolver(fn, var):
+    """A boolean local with one pure definition (flag = x.is_integer() and not x.is_timedelta()) stands for that
+    expression where it is tested, provided ``var`` has not been rebound in between."""
+    from .dataflow import defs_reaching
+    from .forms import is_pure_call_free
+
+    def resolver(name_node):
+        ds = defs_reaching(fn, name_node.id, name_node)
+        if len(ds) != 1 or ds[0].kind != "assign" or ds[0].value is None or not isinstance(ds[0].target, ast.Name):
+            return None
+        e = ds[0].value
+        if not any(isinstance(n, ast.Name) and n.id == var for n in ast.walk(e)):
+            return None
+        if not is_pure_call_free(e, var):
+            return None
+        at_def = {id(d.node) for d in defs_reaching(fn, var, ds[0].node.ast)}
+        at_use = {id(d.node) for d in defs_reaching(fn, var, name_node)}
+        return e if at_def == at_use else None
+    return resolver
+
+
 def analyse(fn, var, init=ALL):
     """dict cfg-node id -> classes ``var`` may have BEFORE the node (None = unreachable / undefined)."""
     cfg = cfg_of(fn)
+    _RESOLVER[0] = _make_resolver(fn, var)
     IN = {n.id: None for n in cfg.nodes}
     IN[cfg.entry.id] = frozenset()
     work = [cfg.entry]
